@@ -1,7 +1,7 @@
 SPECIFICATION Spec
 CONSTANTS
-    Machine = "xfer"
-    CIDS = {"c1","c2"}
+    Machine = "plock"
+    CIDS = {"c1","c2","c3"}
     VALS = {"vA","vB"}
     MAXIDX = 4
     KEEPS = {1,2,3}
@@ -12,18 +12,15 @@ CONSTANTS
     PRIOS <- PriosFull
     JUNK = {"garbage","empty","badma","nop2p"}
     MAXJUNK = 1
-    MAXIMPORTS = 2
-    FAULTS = {0,1,2}
+    MAXIMPORTS = 1
+    FAULTS = {0}
     MarshalStopsOnError = TRUE
-    TruncInLock = TRUE
+    TruncInLock = FALSE
     MAXLOADS = 2
     REKEEP = FALSE
     MAXSAVES = 2
     ImportCleans = TRUE
     UnmarshalMode = "replace"
     LoadSkipsBad = TRUE
-INVARIANT ExportLaw
-INVARIANT ImportLaw
-INVARIANT SerialLawFresh
-INVARIANT SerialLawAny
-INVARIANT MarshalLaw
+INVARIANT NoTornLoad
+INVARIANT FinalFile
